@@ -8,7 +8,8 @@ ASSUME = [
     "PeerId::try_from_multiaddr has no counterpart in the reference crate any more; its oracle is litep2p's own documented "
     "semantics: Some(p) iff the LAST component of the address is /p2p/p (all layouts of 0..2 /p2p components at the end, "
     "before /p2p-circuit or before another protocol, same or different ids, in struct, binary and textual form), plus "
-    "'append /p2p/p to any address and read back = p'",
+    "'append /p2p/p to any address and read back = p', through Protocol::P2p and through the library's own appender "
+    "AddressRecord::new (kept iff the address ends with /p2p/X, else /p2p/peer appended; from_multiaddr accepts the result)",
     "the reference implementation is libp2p-identity 0.2.14 (and the multiaddr 0.18.2 crate built on it) as compiled "
     "into the harness; it shares the multihash / unsigned-varint / bs58 crates with litep2p, so a defect common to both "
     "sides in those crates is not visible to the differential check",
@@ -20,8 +21,8 @@ ASSUME = [
     "human-readable form with serde_json",
 ]
 
-GEN_LINES = ["SPECIFICATION Spec", "CONSTANTS", "  FirstP2p = FALSE", "ACTION_CONSTRAINT Emit", "CHECK_DEADLOCK FALSE"]
-MC_LINES = ["SPECIFICATION Spec", "CONSTANTS", "  FirstP2p = FALSE", "INVARIANTS DerivedIdParses TableConsistent MaddrRule", "CHECK_DEADLOCK FALSE"]
+GEN_LINES = ["SPECIFICATION Spec", "CONSTANTS", "  FirstP2p = FALSE", "  AppendIfNone = FALSE", "ACTION_CONSTRAINT Emit", "CHECK_DEADLOCK FALSE"]
+MC_LINES = ["SPECIFICATION Spec", "CONSTANTS", "  FirstP2p = FALSE", "  AppendIfNone = FALSE", "INVARIANTS DerivedIdParses TableConsistent MaddrRule RecordNewRule", "CHECK_DEADLOCK FALSE"]
 TRACE = ("PeerIdRulesTrace.tla", "PeerIdRulesTrace.cfg")
 
 
@@ -41,7 +42,10 @@ def classify(seg, idx):
     ev = json.loads(seg[idx - 1])
     c = ev.get("c", {})
     if ev.get("e") == "maddr":
-        why = "panic" if ev["got"] == "panic" else ("append-round-trip" if ev["got"] == _expected_maddr(c) else "wrong-component")
+        exp = _expected_maddr(c)
+        if ev["got"] == exp and ev["append_rt"] and (ev.get("new_got") != (exp if exp != "none" else "P") or not ev.get("new_ok")):
+            return "maddr-position:address-record-new"
+        why = "panic" if ev["got"] == "panic" else ("append-round-trip" if ev["got"] == exp else "wrong-component")
         return "maddr-position:%s" % why      # the layout class is in the replay file / `what`
     if ev.get("e") == "derive":
         why = "panic" if ev["got"] == "panic" else ("wrong-hash-choice" if not ev["bytes_ok"] else
@@ -185,6 +189,12 @@ def selftest(ctx):
     bad = "is violated" in r["out"]
     log("selftest negative model (first /p2p component) -> %s" % ("violated (as it must)" if bad else "NOT violated"))
     ok &= bad
+    r = tlc_mc(ctx, "PeerIdRulesMC.tla", write_cfg_noconst(ctx, "negn.cfg", [x.replace("AppendIfNone = FALSE", "AppendIfNone = TRUE") for x in MC_LINES]),
+               workers=2, expect_violation=True)
+    bad = "is violated" in r["out"]
+    log("selftest negative model (AddressRecord::new appends only if no /p2p anywhere) -> %s" % ("violated (as it must)" if bad else "NOT violated"))
+    ok &= bad
+    ok &= corrupt(lambda e: e["e"] == "maddr" and e["new_got"] == "P" and e["c"]["n"] >= 1, lambda e: e.update(new_got="none"), "record-new-not-appended")
     for fault in ("parse-flip", "derive-flip", "rt-break", "maddr-first"):
         harness(ctx, "peerid", base + ["--out", ctx.path("f.ndjson")], env={"VERIF_FAULT": fault})
         r = tlc_trace(ctx, TRACE[0], TRACE[1], ctx.path("f.ndjson"))
